@@ -64,10 +64,10 @@ def mc(ctx):
     ctx.tlc("RollingWindow", cfg, constants=K, name="RW-abs", timeout=900, workers=W,
             defs=dict(Bound="Len(log) <= %d /\\ now <= 16" % (2 if ctx.quick else 3)))
     # shedder: buckets of 500 ms (W = 2), cool-off = 4 ticks
-    K = dict(Size=(2 if ctx.quick else 3), Q=2, TickUs=250000, Advances="{0,1,2,5}", MaxFly=3)
-    bound = "now <= 6 /\\ \\A j \\in Ages : passBk[j] <= %d" % (1 if ctx.quick else 2)
-    cfg = core.render_cfg(spec="Spec", constants=K, invariants=["TypeOK", "AgedOut"],
-                          properties=["P1", "P2", "P2b", "P3", "WindowsFedByPass"], constraints=["Bound"], view="core")
+    K = dict(Size=(2 if ctx.quick else 3), Q=2, TickUs=250000, Advances="{0,1,2,5}", MaxFly=3, CalmK=2)
+    bound = "now <= 6 /\\ \\A j \\in Ages : passBk[j] <= 1"
+    cfg = core.render_cfg(spec="Spec", constants=K, invariants=["TypeOK", "AgedOut", "HighsShape"],
+                          properties=["P1", "P2", "P2b", "P3", "P4", "WindowsFedByPass"], constraints=["Bound"], view="core")
     ctx.tlc("Shedder", cfg, constants=K, name="Shedder-mc", timeout=1500, workers=W, defs=dict(Bound=bound))
     # vacuity guard: a rejection must be reachable in that model
     K2 = dict(K, Size=2)
@@ -128,11 +128,11 @@ def script(*steps):
                             for ops, adv in steps) + ">>"
 
 
-ANY = ("allowHot", "allowCool", "burstS", "burstL", "pass", "fail", "passn", "failn")
+ANY = ("allowHot", "allowCool", "burstS", "burstL", "pass", "fail", "passn", "failn", "quiet")
 
 
 def gen_s(ctx, name, size, q, maxops, adv, scr, simulate=None, depth=None):
-    K = dict(Size=size, Q=q, TickUs=TICKUS, Advances=adv, MaxFly=380, MaxOps=maxops, Script=scr)
+    K = dict(Size=size, Q=q, TickUs=TICKUS, Advances=adv, MaxFly=380, CalmK=300, MaxOps=maxops, Script=scr)
     cfg = core.render_cfg(spec="GSpec", constants=K, invariants=["Emit"])
     r = ctx.tlc("ShedderGen", cfg, constants=K, name=name, simulate=simulate, depth=depth, timeout=1500,
                 workers=(1 if simulate else W))
@@ -150,13 +150,17 @@ def shedder(ctx):
     S = 1000 * MS
     A1 = "{0,1,2,6,9,%d,%d,%d,%d,%d,%d,%d}" % (125 * MS, 250 * MS, S - 100, S, S + 100, S + 1, 2 * S)
     A10 = "{0,1,2,6,7,9,%d,%d,%d,%d,%d,%d,%d}" % (25 * MS, 100 * MS, 125 * MS, 250 * MS, S - 100, S, S + 100)
-    free = script((ANY, [0, 6, S]))
+    free = script((ANY[:-1], [0, 6, S]))      # exhaustive family: without the quiet macro
     freesim = script((ANY, [0, 1, 6, 9, 125 * MS, S - 100, S, S + 100]))
     # sub-millisecond / fractional-millisecond latencies with many passes per bucket: the capacity from the true
     # latencies is several requests, the capacity from latencies rounded down to whole milliseconds is smaller
     subms = script((["burstL"], [0]), (["passn"], [1, 7]), (["burstL"], [0]), (["passn"], [7, 9]),
                    (["burstL"], [0]), (["passn"], [6, 7]), (["burstS"], [100 * MS, 150 * MS]),
                    (["allowHot"], [0]), (["allowHot"], [0]), (["allowHot"], [0]))
+    # busy phase completed via Pass (smoothed count high), the rest drained via Fail, quiet Fail-only traffic, then an
+    # overload burst: the smoothed count must have followed the in-flight history down (Shedder!P4)
+    calm = script((["burstL"], [0]), (["passn"], [6, 125 * MS]), (["failn"], [0]), (["quiet"], [0, 100 * MS, S + 100]),
+                  (["burstS"], [0, 100 * MS, S + 100]), (["allowHot"], [0]), (["allowHot"], [0]))
     if ctx.quick:
         cool = script((["burstL"], [0]), (["fail", "passn"], [0, 125 * MS]), (["allowHot"], [0, 125 * MS, S]),
                       (["allowHot", "allowCool", "fail"], [0, S - 100, S, S + 100]), (["allowCool", "allowHot"], [0, S - 1, S, S + 1]))
@@ -164,6 +168,7 @@ def shedder(ctx):
                       (["allowHot"], [0, S]))
         plans += [("s4cool", 4, S, 5, A1, cool, None), ("s4free", 4, S, 3, A1, free, None),
                   ("s4cap", 4, S, 5, A1, capf, None), ("s10sub", 10, 100 * MS, 10, A10, subms, None),
+                  ("s4calm", 4, S, 7, A1, calm, None),
                   ("s4sim", 4, S, 14, A1, freesim, (1000, 16)),
                   ("s10sim", 10, 100 * MS, 14, A10, script((ANY, [0, 1, 2, 6, 9, 100 * MS, 125 * MS, S])), (1000, 16)),
                   ("s50sim", 50, 100 * MS, 14, A10, script((ANY, [0, 1, 6, 9, 100 * MS, 125 * MS, S])), (500, 16))]
@@ -173,9 +178,10 @@ def shedder(ctx):
                       (["allowCool", "allowHot"], [0, S - 1, S, S + 1, 2 * S]))
         capf = script((["burstS", "burstL"], [0]), (["passn", "pass"], [6, 125 * MS, S]), (["burstL", "burstS"], [0, S + 100]),
                       (["passn", "failn", "fail"], [0, S]), (["allowHot"], [0, S, 2 * S]), (["allowHot", "allowCool"], [0, S]))
-        plans += [("s4cool", 4, S, 5, A1, cool, None), ("s4free", 4, S, 4, A1, script((ANY, [0, 6, S])), None),
+        plans += [("s4cool", 4, S, 5, A1, cool, None), ("s4free", 4, S, 4, A1, script((ANY[:-1], [0, S])), None),
                   ("s4cap", 4, S, 6, A1, capf, None), ("s10cool", 10, 100 * MS, 5, A10, cool, None),
                   ("s10sub", 10, 100 * MS, 10, A10, subms, None), ("s50sub", 50, 100 * MS, 10, A10, subms, None),
+                  ("s4calm", 4, S, 7, A1, calm, None), ("s10calm", 10, 100 * MS, 7, A10, calm, None),
                   ("s4sim", 4, S, 20, A1, freesim, (8000, 22)),
                   ("s10sim", 10, 100 * MS, 20, A10, script((ANY, [0, 1, 2, 6, 9, 100 * MS, 125 * MS, S])), (8000, 22)),
                   ("s50sim", 50, 100 * MS, 20, A10, script((ANY, [0, 1, 6, 9, 100 * MS, 125 * MS, S])), (4000, 22))]
